@@ -21,8 +21,7 @@ Not demanded (left out of the alphabets on purpose; the statement / documentatio
     results; undocumented functions (sqrt, log, tan, logb), fractional powers of dimensional values, division by an
     exact zero, domain errors; unary minus on anything but a number literal; double negation;
   * a requested unit of another dimension than the result (the units module converts reciprocal dimensions);
-  * an expression result of exactly zero as a *node value* (`FloatNode.set_value` drops falsy values: that is C14's
-    finding, not an expression defect), integer nodes defined by expressions (rounding is not stated);
+  * integer nodes defined by expressions (rounding is not stated);
   * templates: alignment/sign flags in formats (the documented notation is digits, '.', and one of s d f e b),
     escaped braces (the documented example does not show its output), whole arrays and sub-array slices (list vs
     ndarray string form is unspecified), empty slices, negative indices, missing nodes, formats Python itself
@@ -169,7 +168,27 @@ def _live(envname):
         if o[0] != "ok":
             raise HarnessError("fixed environment %r cannot be built: %r" % (envname, o))
         _LIVE[envname] = o[1]
+        _PRISTINE[envname] = _h_snapshot(o[1])
     return _LIVE[envname]
+
+
+_PRISTINE = {}
+
+
+def _env_guard(envname, sub, case, tags, sh):
+    """a solver call must leave the (long-lived) environment as it found it; a changed environment is reported for the
+    call that changed it and the environment is rebuilt, so that no later case sees it"""
+    env = _LIVE.get(envname)
+    if env is None:
+        return None
+    snap = _h_snapshot(env)
+    if snap == _PRISTINE[envname]:
+        return None
+    changed = [list(a) for a, b in zip(snap[0], _PRISTINE[envname][0]) if a != b]
+    del _LIVE[envname]
+    sh.count(sub + ":FAIL-environment-changed")
+    return failure(sub, case, "environment nodes unchanged", changed[:3], tags=list(tags) + ["single-call"],
+                   behaviour="environment-node-changed")
 
 
 _LEAKS = [0]
@@ -846,6 +865,7 @@ def run_num(envname, ast, extra, sh, sub="numerical"):
         if nontriv:
             sh.add_to_set("nontrivial", h)
         bad = _judge_num(sub, case, refv, outcome(_solve_num, envname, text, unit), notes, sh)
+        bad = bad or _env_guard(envname, sub, case, _num_tags(ast, envname, notes), sh)
         _clean(force=bad is not None)
         if bad:
             sh.fail(bad)
@@ -1042,9 +1062,6 @@ def run_infile_num(envname, gen, sh, sub="infile-numerical"):
             sh.count("%s:not-demanded:%s" % (sub, e))
             continue
         if refv[0] == "ok":
-            if refv[1][0] == 0:
-                sh.count(sub + ":not-demanded:zero result as node value (C14)")
-                continue
             try:
                 units = _num_units(refv[1], envname, False)
             except RefSkip as e:
@@ -1122,6 +1139,7 @@ def run_log(envname, ast, sh, sub="logical"):
         sh.add_to_set("nontrivial", h)
     o = outcome(_solve_log, envname, text)
     bad = _judge_log(sub, case, exp, o, sh)
+    bad = bad or _env_guard(envname, sub, case, _log_tags(ast, envname), sh)
     _clean(force=bad is not None)
     if bad:
         sh.fail(bad)
@@ -1217,6 +1235,7 @@ def run_tpl(envname, pieces, sh, sub="template"):
         sh.add_to_set("nontrivial", h)
     o = outcome(_solve_tpl, envname, text)
     bad = _judge_tpl(sub, case, exp, o, sh)
+    bad = bad or _env_guard(envname, sub, case, _tpl_tags(pieces, envname), sh)
     _clean(force=bad is not None)
     if bad:
         sh.fail(bad)
@@ -1251,6 +1270,181 @@ def run_infile_tpl(envname, gen, sh, sub="infile-template"):
     runner.flush()
 
 
+# =================================================================================================== histories (E1)
+# Several solver calls on ONE environment: the k-th result must equal the result of the same call on a fresh
+# environment, and the node values of the environment must stay what they were (differential oracle; nothing is
+# assumed about the results themselves, so the alphabet may contain forms whose value the statement leaves open,
+# e.g. a unit-less literal compared with a dimensional node - only "same as on a fresh environment" is demanded).
+HIST_NODES = ["a", "c", "a2", "b", "k", "k2", "k3", "ms", "x", "s", "s2", "f", "wm", "d", "hh"]
+
+
+def _h_log(ast):
+    return ["log", ast, None]
+
+
+def _h_num(ast, unit):
+    return ["num", ast, unit]
+
+
+def _h_tpl(*pieces):
+    return ["tpl", list(pieces), None]
+
+
+def _c(op, l, r):
+    return ["cmp", op, l if isinstance(l, list) else node(l), r if isinstance(r, list) else node(r)]
+
+
+HCALLS = [
+    # node-vs-node comparisons in different units (float-float, int-int, custom units), both orders
+    _h_log(_c(">", "a", "c")), _h_log(_c("<", "c", "a")), _h_log(_c("==", "a", "a2")), _h_log(_c("==", "a2", "a")),
+    _h_log(_c("<=", "c", "a2")), _h_log(_c("!=", "a", "c")), _h_log(_c(">", "k3", "k2")), _h_log(_c("<", "k2", "k3")),
+    _h_log(_c("==", "k3", "k2")), _h_log(_c("<", "ms", "k2")), _h_log(_c(">=", "k", "ms")), _h_log(_c("==", "d", "a")),
+    _h_log(_c("<", "hh", "c")), _h_log(_c(">", "wm", "c")),
+    _h_log(flat([_c(">", "a", "c"), _c("<", "k2", "k3")], ["&&"])), _h_log(["not", par(_c("==", "c", "a"))]),
+    # node vs literal with unit / without unit (bare number of the node), other truth atoms
+    _h_log(_c("==", "a", num("2", "m"))), _h_log(_c("==", "a", num("200", "cm"))), _h_log(_c("<", num("100", "cm"), "c")),
+    _h_log(_c("<", "a", num("50"))), _h_log(_c(">=", "c", num("100"))), _h_log(_c(">", "k3", num("100"))),
+    _h_log(_c("==", "k2", num("2"))), _h_log(_c("<", "wm", num("1"))), _h_log(_c("==", "b", num("3"))),
+    _h_log(["bref", "f"]), _h_log(["def", "a"]), _h_log(_c("==", "s", "s2")),
+    # numerical expressions on the same nodes
+    _h_num(flat([Ra, Rc], ["+"]), "m"), _h_num(flat([Rc, ref("a2")], ["-"]), "cm"), _h_num(Rc, "cm"), _h_num(Ra, "cm"),
+    _h_num(flat([ref("k3"), ref("k2")], ["/"]), None), _h_num(flat([Ra, Rb], ["*"]), "m"),
+    _h_num(flat([Rd, Rhh], ["+"]), "[len]"), _h_num(flat([Rwm, Rc], ["+"]), "cm"), _h_num(ref("k3"), "m"),
+    # templates print the bare numbers
+    _h_tpl(tref("a")), _h_tpl(tref("c", None, ".1f")), _h_tpl(tref("k3", None, "d")), _h_tpl(tref("a2"), ["txt", " "],
+                                                                                                tref("a")),
+    _h_tpl(tref("k2")), _h_tpl(tref("d")), _h_tpl(tref("wm")), _h_tpl(tref("ms", None, "05d")), _h_tpl(tref("s", [[1, 3]])),
+    # failing calls
+    _h_num(flat([Ra, Rb], ["+"]), None), _h_log(_c("==", "a", "b")), _h_num(flat([Ra, ref("zz")], ["+"]), "m"),
+]
+# core alphabet for triples: every kind of call that can touch a node + every kind of reader
+HCORE = [0, 1, 2, 3, 6, 8, 9, 11, 12, 14, 16, 19, 20, 21, 22, 28, 30, 32, 37, 38, 39, 41, 46, 47]
+
+
+def _h_text(call):
+    kind, ast, unit = call
+    return dict(num=R.num_render, log=R.log_render, tpl=R.tpl_render)[kind](ast)
+
+
+def _h_env():
+    table = {n: ln for n, _, _, _, ln in _node_table("custom")}
+    return _parse_text("custom", [table[n] for n in HIST_NODES])
+
+
+def _h_snapshot(env):
+    out = []
+    for n in env.nodes:
+        v = n.value
+        out.append((n.name, type(v).__name__, repr(getattr(v, "value", v)), repr(getattr(v, "unit", None)),
+                    repr(n.value_raw), repr(n.units_raw)))
+    units = tuple(sorted((k, repr(v.get("magnitude")), repr(v.get("dimensions"))) for k, v in env.units.items()))
+    return (tuple(out), units)
+
+
+def _h_exec(env, call):
+    from scinumtools.dip.solvers import NumericalSolver, LogicalSolver, TemplateSolver
+    kind, ast, unit = call
+    text = _h_text(call)
+
+    def go():
+        if kind == "num":
+            with NumericalSolver(env) as s:
+                r = s.solve(text, unit)
+            return repr(float(r)) if unit is not None else (repr(float(r.value())), repr(r.units()))
+        if kind == "log":
+            with LogicalSolver(env) as s:
+                return _truth(s.solve(text))
+        with TemplateSolver(env) as s:
+            return s.solve(text)
+    o = outcome(go)
+    _clean(force=o[0] == "err")
+    return list(o)
+
+
+_H_FRESH = {}
+_H_PRISTINE = [None]
+
+
+def _h_fresh(i):
+    if i not in _H_FRESH:
+        env = _h_env()
+        if _H_PRISTINE[0] is None:
+            _H_PRISTINE[0] = _h_snapshot(env)
+        _H_FRESH[i] = _h_exec(env, HCALLS[i])
+    return _H_FRESH[i]
+
+
+def _is_nn_units(call):
+    kind, ast, _ = call
+    if kind != "log":
+        return False
+    found = []
+
+    def walk(a):
+        if isinstance(a, list):
+            if a and a[0] == "cmp" and a[2][0] == "node" and a[3][0] == "node":
+                ul, ur = _REF["custom"].nodes[a[2][1]][2], _REF["custom"].nodes[a[3][1]][2]
+                if ul != ur:
+                    found.append(1)
+            for x in a:
+                walk(x)
+    walk(ast)
+    return bool(found)
+
+
+def run_history(idx, sh, calls=None):
+    """execute one history on one environment; -> failure record or None"""
+    calls = [HCALLS[i] for i in idx] if calls is None else calls
+    fresh_of = (lambda k: _h_fresh(idx[k])) if idx is not None else None
+    env = _h_env()
+    pristine = _h_snapshot(env)
+    sh.add_to_set("hist_states", hash(pristine))
+    bad = None
+    errs_before = False
+    for k, call in enumerate(calls):
+        got = _h_exec(env, call)
+        sh.transitions += 1
+        if fresh_of is not None:
+            exp = fresh_of(k)
+        else:
+            exp = _h_exec(_h_env(), call)
+        snap = _h_snapshot(env)
+        sh.add_to_set("hist_states", hash(snap))
+        if got[0] == "err" and bad is None:
+            errs_after = True
+        else:
+            errs_after = False
+        if bad is None and (got != exp or snap != pristine):
+            tags = ["history-length=%d" % (k + 1), "call:" + call[0]]
+            if any(_is_nn_units(c) for c in calls[:k + 1]):
+                tags.append("after-node-vs-node-comparison-in-different-units")
+            if errs_before:
+                tags.append("after-failing-call")
+            case = dict(kind="hist", env="custom", calls=[list(c) for c in calls[:k + 1]],
+                        text=" ; ".join(_h_text(c) for c in calls[:k + 1]))
+            if got != exp:
+                bad = failure("history", case, exp, got, tags=tags, behaviour="result-differs-from-fresh-environment")
+            else:
+                changed = [a for a, b in zip(snap[0], pristine[0]) if a != b]
+                bad = failure("history", case, "environment nodes unchanged", [list(c) for c in changed[:3]],
+                              tags=tags, behaviour="environment-node-changed")
+        errs_before = errs_before or errs_after
+    sh.traces += 1
+    sh.max_depth = max(sh.max_depth, len(calls))
+    return bad
+
+
+def g_hist(n, alphabet):
+    return product(alphabet, repeat=n)
+
+
+def hist_streams(tier, seed):
+    S = [("hist/pairs", lambda: g_hist(2, range(len(HCALLS))))]
+    if tier == "thorough":
+        S.append(("hist/triples", lambda: g_hist(3, HCORE)))
+    return S
+
+
 # =================================================================================================== plan / shards
 def _streams(tier, seed):
     """name -> (runner kind, env, generator factory, extra)"""
@@ -1263,6 +1457,8 @@ def _streams(tier, seed):
         out[name] = ("log", env, g, None)
     for name, env, g in infile_log_streams(tier, seed):
         out[name] = ("ilog", env, g, None)
+    for name, g in hist_streams(tier, seed):
+        out[name] = ("hist", "custom", g, None)
     out["tpl/all"] = ("tpl", "plain", lambda: g_tpl(tier), None)
     out["tpl/custom-env"] = ("tpl", "custom", lambda: ([r] for r in _valid_refs(_REF["plain"]) + _custom_refs()), None)
     out["itpl/all"] = ("itpl", "plain", lambda: g_tpl_infile(tier), None)
@@ -1271,7 +1467,7 @@ def _streams(tier, seed):
 
 
 # approximate cost per case (ms) used only to size the shards
-_COST = dict(num=1.6, inum=5.0, log=0.5, ilog=3.0, tpl=0.35, itpl=3.0)
+_COST = dict(num=1.6, inum=5.0, log=0.5, ilog=3.0, tpl=0.35, itpl=3.0, hist=12.0)
 _SHARD_MS = dict(quick=6000.0, thorough=60000.0)
 
 
@@ -1312,6 +1508,21 @@ def run_shard(desc):
             run_tpl(env, p, sh)
     elif kind == "itpl":
         run_infile_tpl(env, gen, sh)
+    elif kind == "hist":
+        for idx in gen:
+            idx = tuple(idx)
+            sh.evaluations += 1
+            h = _hash("hist", idx)
+            sh.add_to_set("cases", h)
+            sh.add_to_set("nontrivial", h)
+            bad = run_history(idx, sh)
+            if bad:
+                sh.count("history:FAIL")
+                sh.fail(bad)
+            else:
+                sh.count("history:agrees")
+                if len(sh.samples) < 2 and sh.evaluations % 101 == 0:
+                    sh.sample(dict(sub="history", calls=[_h_text(HCALLS[i]) for i in idx]))
     _clean(force=True)
     sh.add_extra("evaluations/" + name.split("/")[0], sh.evaluations - before)
     sh.add_extra("unit_table_restores", _LEAKS[0])
@@ -1332,7 +1543,8 @@ def replay(rec):
                 refv = ("ok", R.num_eval(c["ast"], _REF[env], notes))
             except RefRaise as e:
                 refv = ("raise", str(e))
-            return _judge_num(rec["sub"], c, refv, outcome(_solve_num, env, c["text"], c["unit"]), notes, sh)
+            return (_judge_num(rec["sub"], c, refv, outcome(_solve_num, env, c["text"], c["unit"]), notes, sh)
+                    or _env_guard(env, rec["sub"], c, _num_tags(c["ast"], env, notes), sh))
         if kind == "inum":
             got = []
 
@@ -1344,17 +1556,21 @@ def replay(rec):
             hits = [r for r in got if r["case"]["unit"] == c["unit"]]
             return hits[0] if hits else None
         if kind == "log":
-            return _judge_log(rec["sub"], c, R.log_eval(c["ast"], _REF[env]), outcome(_solve_log, env, c["text"]), sh)
+            return (_judge_log(rec["sub"], c, R.log_eval(c["ast"], _REF[env]), outcome(_solve_log, env, c["text"]), sh)
+                    or _env_guard(env, rec["sub"], c, _log_tags(c["ast"], env), sh))
         if kind == "ilog":
             o = outcome(_parse_infile, env, "log", [(c["ast"], c["text"], None)])
             o = ("ok", o[1][0]) if o[0] == "ok" else o
             return _judge_log(rec["sub"], c, R.log_eval(c["ast"], _REF[env]), o, sh)
         if kind == "tpl":
-            return _judge_tpl(rec["sub"], c, R.tpl_eval(c["ast"], _REF[env]), outcome(_solve_tpl, env, c["text"]), sh)
+            return (_judge_tpl(rec["sub"], c, R.tpl_eval(c["ast"], _REF[env]), outcome(_solve_tpl, env, c["text"]), sh)
+                    or _env_guard(env, rec["sub"], c, _tpl_tags(c["ast"], env), sh))
         if kind == "itpl":
             o = outcome(_parse_infile, env, "tpl", [(c["ast"], c["text"], None)])
             o = ("ok", o[1][0]) if o[0] == "ok" else o
             return _judge_tpl(rec["sub"], c, R.tpl_eval(c["ast"], _REF[env]), o, sh)
+        if kind == "hist":
+            return run_history(None, sh, calls=[list(x) for x in c["calls"]])
         if kind == "batch":
             render = dict(num=R.num_render, log=R.log_render, tpl=R.tpl_render)[c["ikind"]]
             items = [(a, render(a), u) for a, u in c["items"]]
@@ -1389,6 +1605,9 @@ def finish(total, tier, seed):
         need(sub + ":true", 100)
         need(sub + ":false", 100)
     need("template:agrees", 100)
+    need("history:agrees", 100)
+    hstates = total.sets.get("hist_states", set())
+    total.states = len(hstates)
     need("infile-template:agrees", 50)
     skipped = {k: v for k, v in h.items() if ":not-demanded:" in k}
     per_sub = {}
@@ -1396,6 +1615,13 @@ def finish(total, tier, seed):
         if k.startswith("evaluations/"):
             per_sub[k.split("/", 1)[1]] = v
     return dict(
+        states=len(hstates), transitions=total.transitions, traces_validated_against_impl=total.traces,
+        max_depth=total.max_depth,
+        histories="every ordered pair (thorough: + every triple over a 24-call core) of %d solver calls (node-vs-node "
+                  "comparisons in different units, comparisons with and without unit, numerical expressions, "
+                  "templates, failing calls) on one environment; each result == result on a fresh environment and "
+                  "the environment's node values unchanged; states = distinct canonical environment snapshots"
+                  % len(HCALLS),
         distinct_nontrivial=len(nontriv),
         distinct_cases=len(cases),
         evaluations_by_family=per_sub,
